@@ -643,6 +643,11 @@ class FuncTranslator(object):
                 continue
             nv = self.newver(name, scope)
             for (blk, cur), v in zip(branches, vs):
+                if v is None and self.method and name.startswith('self.') and self.params \
+                        and name[5:] not in self.scalar_fields:
+                    # attribute of an existing object not assigned on this path: whatever the object holds
+                    blk.append(('assign', nv, ('view', self.params[0])))
+                    self.meta[nv] = meta_join(self.meta.get(nv), AV((), False, 'unk'))
                 if v is not None:
                     blk.append(('assign', nv, ('var', v)))
                     m = self.meta.get(v)
@@ -829,6 +834,10 @@ class FuncTranslator(object):
     def st_If(self, n, scope, extra_body=(), extra_else=()):
         self.expr(n.test, scope)
         pre_cur, pre_nb = dict(scope.cur), dict(scope.nb)
+        root = scope_root(scope)
+        if root is scope:
+            root = None                     # (attributes of self live in the root scope: branch them too)
+        pre_rcur = dict(root.cur) if root is not None else None
         none_in_body = none_in_else = None
         t = n.test
         if isinstance(t, ast.Compare) and len(t.ops) == 1 and isinstance(t.left, ast.Name) and \
@@ -845,6 +854,9 @@ class FuncTranslator(object):
         b1 = self.blocks.pop()
         cur1, nb1 = scope.cur, scope.nb
         scope.cur, scope.nb = dict(pre_cur), dict(pre_nb)
+        if root is not None:
+            rcur1 = root.cur
+            root.cur = dict(pre_rcur)
         self.blocks.append([])
         if none_in_else:
             scope.cur.pop(none_in_else, None)
@@ -854,10 +866,16 @@ class FuncTranslator(object):
         # a branch that always raises contributes nothing to the state after the `if`
         live = [(b, c) for (b, c), t in (((b1, cur1), terminates(list(n.body) + list(extra_body))),
                                          ((b2, cur2), terminates(list(n.orelse) + list(extra_else)))) if t != 'raise']
+        if root is not None:
+            rcur2 = root.cur
         if len(live) == 1:
             scope.cur = live[0][1]
+            if root is not None:
+                root.cur = rcur1 if live[0][0] is b1 else rcur2
         else:
             self.merge(scope, pre_cur, [(b1, cur1), (b2, cur2)])
+            if root is not None:
+                self.merge(root, pre_rcur, [(b1, rcur1), (b2, rcur2)])
         nb = dict(nb1)
         for k, v in nb2.items():
             nb[k] = v if k not in nb or nb[k] is v else AV((), False, None, tuple(nb[k].funcs) + tuple(f for f in v.funcs if f not in nb[k].funcs), None, nb[k].cls | v.cls)
@@ -879,6 +897,9 @@ class FuncTranslator(object):
             if name in sc.cur:
                 self.emit(('assign', lv, ('var', sc.cur[name])))
                 self.meta[lv] = self.meta.get(sc.cur[name], NB)
+            elif self.method and name.startswith('self.') and self.params and name[5:] not in self.scalar_fields:
+                self.emit(('assign', lv, ('view', self.params[0])))
+                self.meta[lv] = AV((), False, 'unk')
             sc.cur[name] = lv
             loopvars[name] = (sc, lv)
         scope.loops.append(loopvars)
@@ -1987,6 +2008,31 @@ def build(repo=None):
         r = w.lookup(q)
         tq = q + '.__init__' if (r is not None and r[0] == 'class') else q
         ensure(tq)
+    # public methods of the public classes with a spec (and of the classes nested in them)
+    methods, methods_failed = [], {}
+
+    def class_methods(m, cdef, cq):
+        for st in cdef.body:
+            if isinstance(st, ast.ClassDef) and not st.name.startswith('_'):
+                class_methods(m, st, cq + '.' + st.name)
+            elif isinstance(st, ast.FunctionDef) and (not st.name.startswith('_') or st.name == '__call__'):
+                decos = [dotted_name(d) for d in st.decorator_list]
+                if any(d in ('property', 'classmethod', 'staticmethod') for d in decos):
+                    continue
+                q = cq + '.' + st.name
+                if ensure(q) is False:
+                    methods_failed[q] = failed.get(q, '?')
+                else:
+                    methods.append(q)
+    for q in sorted(public):
+        r = w.lookup(q)
+        if r is not None and r[0] == 'class' and q in SP.SPECS:
+            probe = FuncTranslator.__new__(FuncTranslator)
+            probe.w = w
+            probe.clsq = q
+            for (mm, cdef, cq) in FuncTranslator.class_chain(probe, q):
+                class_methods(mm, cdef, cq)
+    methods = sorted(set(methods))
     # summaries: least fixpoint over the call graph
     summaries = {q: dict(BOTTOM) for q in progs}
     for _ in range(50):
@@ -2006,7 +2052,7 @@ def build(repo=None):
             if c[0] == 'call' and c[2] not in progs:
                 bad_callers.setdefault(q, set()).add(c[2])
     return dict(progs=progs, summaries=summaries, public=sorted(public), failed=failed,
-                bad_callers=bad_callers, world=w)
+                bad_callers=bad_callers, world=w, methods=methods, methods_failed=methods_failed)
 
 
 def public_key(q):
@@ -2058,6 +2104,9 @@ def generate(repo=None, path=None):
     out.append('(* library-internal callees, under the names used by the Call commands *)\n'
                'Definition callee_functions : list (string * prog) := [\n  %s].\n'
                % ';\n  '.join('(%s, %s)' % (coq_str(q), ident(q)) for q in sorted(progs)))
+    out.append('(* public methods of the public classes, translated with self as parameter 0 *)\n'
+               'Definition public_methods : list (string * prog) := [\n  %s].\n'
+               % ';\n  '.join('(%s, %s)' % (coq_str(q), ident(q)) for q in res['methods']))
     untr = sorted(res['failed'])
     out.append('(* not translated (reported by the check, never skipped silently):\n%s *)\n'
                % '\n'.join('   %s : %s' % (q, res['failed'][q].replace('*)', '* )')) for q in untr))
@@ -2106,6 +2155,20 @@ def generate_exceptions(path=None, res=None):
 
     def lst(name, items, comment):
         return '(* %s *)\nDefinition %s : list string := [%s].\n' % (comment, name, '; '.join(coq_str(x) for x in items))
+    mex = []
+    if res is not None:
+        kfs = list(vlib.known_findings('C18'))
+        recorded = [kf.get('key', '') for kf in kfs if kf.get('key', '').startswith('C18:object-')]
+        for q in res['methods']:
+            params, body = res['progs'][q]
+            pts_, T_, W_, R_ = analyze(params, body, res['summaries'])
+            rejected = any(l[0] == 'A' and l[1] != 0 for l in W_) or bool(R_ & T_) or ('A', 0) in R_
+            if not rejected:
+                continue
+            short = q.rsplit('.', 1)[1]
+            known = any(('.%s(' % short) in k and k.split(':')[2] in q for k in recorded)
+            if known or q in SP.ALIAS_METHOD_UNPROVED:
+                mex.append(q)
     text = ('(* AliasExceptions.v — GENERATED by tools/translate/alias_prog.py from\n'
             '   /verif/KNOWN_FINDINGS.json (recorded C18 findings) and the committed list\n'
             '   ALIAS_UNPROVED_ARGS of tools/translate/_alias_specs.py; do not edit. *)\n'
@@ -2116,10 +2179,12 @@ def generate_exceptions(path=None, res=None):
               '   ALIAS_UNPROVED_ARGS in _alias_specs.py); covered dynamically *)\n'
               'Definition unproved_args : list (string * list nat) := [%s].\n'
               % '; '.join('(%s, [%s])' % (coq_str(k), '; '.join(str(i) for i in pos)) for k, pos in unproved)
+            + lst('method_exempt', mex, 'public methods the checker rejects: recorded findings (KNOWN_FINDINGS keys C18:object-...) '
+                  'or analysis too coarse (ALIAS_METHOD_UNPROVED in _alias_specs.py)')
             + lst('cache_accessors', accessors, 'documented cache accessors: returning the cached arrays is their purpose'))
     vlib.write_if_changed(path or os.path.join(vlib.COQ, 'gen', 'AliasExceptions.v'), text)
     return dict(writers=writers, returners=returners, unproved=[k for k, _ in unproved],
-                unproved_positions=dict(unproved), accessors=accessors)
+                unproved_positions=dict(unproved), accessors=accessors, method_exempt=mex)
 
 
 _generate_progs = generate
